@@ -28,6 +28,21 @@ PROPS = {
         rapid("C18c", 4000, 20000, shards=6),
         {"sub": "C18x", "kind": "test", "run": "TestC18Exhaustive"},
     ]},
+    "C05": {"jobs": [
+        rapid("C05a", 1000, 5000, shrinktime="15s"),
+    ]},
+    "C06": {"jobs": [
+        rapid("C06a", 1000, 5000, shrinktime="15s"),
+    ]},
+    "C09": {"jobs": [
+        rapid("C09a", 1000, 5000, shrinktime="15s"),
+    ]},
+    "C07": {"jobs": [
+        rapid("C07a", 2000, 8000, shrinktime="15s", race_shards=1),
+    ]},
+    "C16": {"jobs": [
+        rapid("C16a", 1500, 6000, shrinktime="15s", race_shards=1),
+    ]},
     "C08": {"jobs": [
         rapid("C08a", 1500, 6000, shrinktime="15s"),
     ]},
@@ -36,6 +51,10 @@ PROPS = {
     ]},
     "C11": {"jobs": [
         rapid("C11a", 1200, 5000, shrinktime="15s"),
+    ]},
+    "C12": {"jobs": [
+        rapid("C12a", 1500, 6000, shrinktime="15s"),
+        rapid("C12c", 2000, 8000, shrinktime="15s"),
     ]},
     "C13": {"jobs": [
         rapid("C13a", 1500, 6000, shrinktime="15s"),
